@@ -56,7 +56,8 @@ fn indices(a: u64) -> [u64; 4] {
 
 fn gen_frame(rng: &mut Rng) -> u64 {
     (match rng.below(6) {
-        0 => 0x1000,
+        // (physical frame 0 is a frame like any other: a root table may live there)
+        0 => *rng.pick(&[0x1000u64, 0x1000, 0]),
         1 => 1 << rng.range(12, 51),
         2 => ADDR,
         3 => rng.below(1 << 20) << 12,
